@@ -6,10 +6,10 @@
 // mj_forward and prints everything needed to judge admissibility of efc_force, qfrc_constraint = J' efc_force,
 // mj_contactForce and the pyramid encode/decode pair.  All doubles as C99 hex floats.
 // record (one line):
-//  F seed cone solver noslip island adhes step nv ne nf nefc ncon niter nisland
+//  F seed cone solver noslip island adhes step nv ne nf nefc ncon niter nisland sparse
 //    type[nefc] id[nefc] floss[nefc] force[nefc] D[nefc] R[nefc] jar[nefc] state[nefc]
 //    qfrc_constraint[nv] JTf[nv]
-//    {dim mu fr[5] adr adhesion cf[6] rt[6]}[ncon]     (cf = mj_contactForce; rt = decode(encode(decode(edges))) for
+//    {dim mu fr[5] adr exclude adhesion cf[6] rt[6]}[ncon]     (cf = mj_contactForce; rt = decode(encode(decode(edges))) for
 //                                                       pyramidal contacts, = cf otherwise)
 #include <stdio.h>
 #include <stdlib.h>
@@ -20,8 +20,8 @@ static void dump(const mjModel* m, mjData* d, int seed, int noslip, int island, 
   int nefc = d->nefc, nv = m->nv;
   int niter = 0;
   for (int i = 0; i < mjMAX(1, d->nisland) && i < mjNISLAND; i++) niter += d->solver_niter[i];
-  printf("F %d %d %d %d %d %d %d %d %d %d %d %d %d %d", seed, m->opt.cone, m->opt.solver, noslip, island, adhes, step, nv, d->ne, d->nf,
-         nefc, d->ncon, niter, d->nisland);
+  printf("F %d %d %d %d %d %d %d %d %d %d %d %d %d %d %d", seed, m->opt.cone, m->opt.solver, noslip, island, adhes, step, nv, d->ne, d->nf,
+         nefc, d->ncon, niter, d->nisland, mj_isSparse(m));
   int cap = nefc > 0 ? nefc : 1;
   mjtNum* jar = malloc(sizeof(mjtNum) * cap);
   mjtNum* jtf = calloc(nv > 0 ? nv : 1, sizeof(mjtNum));
@@ -41,7 +41,7 @@ static void dump(const mjModel* m, mjData* d, int seed, int noslip, int island, 
     mjtNum cf[6], rt[6], pyr[10];
     mj_contactForce(m, d, c, cf);
     memcpy(rt, cf, sizeof(cf));
-    if (con->efc_address >= 0 && m->opt.cone == mjCONE_PYRAMIDAL && con->dim > 1) {
+    if (con->efc_address >= 0 && !con->exclude && con->efc_address + 2*(con->dim-1) <= d->nefc && m->opt.cone == mjCONE_PYRAMIDAL && con->dim > 1) {
       mjtNum f1[6] = {0};
       mju_decodePyramid(f1, d->efc_force + con->efc_address, con->friction, con->dim);
       mju_encodePyramid(pyr, f1, con->friction, con->dim);
@@ -50,7 +50,7 @@ static void dump(const mjModel* m, mjData* d, int seed, int noslip, int island, 
     }
     printf(" %d %a", con->dim, con->mu);
     for (int k = 0; k < 5; k++) printf(" %a", con->friction[k]);
-    printf(" %d %a", con->efc_address, con->adhesion);
+    printf(" %d %d %a", con->efc_address, con->exclude, con->adhesion);
     for (int k = 0; k < 6; k++) printf(" %a", cf[k]);
     for (int k = 0; k < 6; k++) printf(" %a", rt[k]);
   }
@@ -74,8 +74,17 @@ static mjModel* isl_model(int seed, int* o_noslip, int* o_island) {
   { static const double ir[4] = {1, 1, 0.4, 6}; s->option.impratio = ir[mjg_int(r, 4)]; }
   *o_island = (seed % 8 != 7);
   if (!*o_island) s->option.disableflags |= mjDSBL_ISLAND;
+  s->option.jacobian = (seed % 2) ? mjJAC_SPARSE : (seed % 4 == 0 ? mjJAC_DENSE : mjJAC_AUTO);
   mjsBody* world = mjs_findBody(s, "world");
+  int nrowless_front = mjg_int(r, 3);                  // static blocks declared BEFORE the plane: their contacts tend to come first
+  int ngeomname = 0;
+  for (int k = 0; k < nrowless_front; k++) {
+    mjsBody* ped = mjs_addBody(world, NULL); ped->pos[0] = -20 - 2 * k; ped->pos[2] = 0.08;
+    mjsGeom* g = mjs_addGeom(ped, NULL); g->type = mjg_chance(r, 0.5) ? mjGEOM_BOX : mjGEOM_SPHERE; g->size[0] = g->size[1] = g->size[2] = 0.1;
+    char nm[16]; snprintf(nm, sizeof(nm), "sf%d", ngeomname++); mjs_setName(g->element, nm);
+  }
   mjsGeom* plane = mjs_addGeom(world, NULL); plane->type = mjGEOM_PLANE; plane->size[0] = 50; plane->size[1] = 50; plane->size[2] = 0.1;
+  mjs_setName(plane->element, "floor");
   int ntree = 2 + mjg_int(r, 4), njnt = 0, nten = 0;
   int pattern = mjg_int(r, 4);         // frictionloss across trees: ascending, descending, random, few large among small
   for (int t = 0; t < ntree; t++) {
@@ -134,6 +143,27 @@ static mjModel* isl_model(int seed, int* o_noslip, int* o_island) {
     { static const int dims[4] = {1, 3, 4, 6}; g->condim = dims[mjg_int(r, 4)]; }
     g->friction[0] = mjg_range(r, 0.1, 1.5); g->friction[1] = mjg_range(r, 0.001, 0.2); g->friction[2] = mjg_range(r, 0.0001, 0.05);
     g->priority = 1;                                    // the body's own friction / condim win over the plane's
+  }
+  // contacts that own no efc rows: explicit pairs between static geoms (no dofs), between two geoms of one free
+  // body (identical dof chains cancel only in the sparse Jacobian), and pairs that are in the gap
+  int nrowless_back = mjg_int(r, 3);
+  for (int k = 0; k < nrowless_back; k++) {
+    mjsBody* ped = mjs_addBody(world, NULL); ped->pos[0] = 20 + 2 * k; ped->pos[1] = 7; ped->pos[2] = 0.07;
+    mjsGeom* g = mjs_addGeom(ped, NULL); g->type = mjGEOM_BOX; g->size[0] = g->size[1] = g->size[2] = 0.1;
+    char nm[16]; snprintf(nm, sizeof(nm), "sf%d", ngeomname++); mjs_setName(g->element, nm);
+  }
+  for (int k = 0; k < ngeomname; k++) {
+    mjsPair* pr = mjs_addPair(s, NULL); char nm[16]; snprintf(nm, sizeof(nm), "sf%d", k);
+    mjs_setString(pr->geomname1, "floor"); mjs_setString(pr->geomname2, nm);
+    { static const int dims[4] = {1, 3, 4, 6}; pr->condim = dims[mjg_int(r, 4)]; }
+    if (mjg_chance(r, 0.3)) { pr->margin = 0.05; pr->gap = 0.2; }       // some of them only in the gap
+  }
+  if (mjg_chance(r, 0.6)) {                             // a free body with two overlapping geoms and an explicit pair between them
+    mjsBody* b = mjs_addBody(world, NULL); b->pos[0] = -3; b->pos[1] = -9; b->pos[2] = 0.098;
+    mjs_addFreeJoint(b);
+    mjsGeom* g1 = mjs_addGeom(b, NULL); g1->type = mjGEOM_SPHERE; g1->size[0] = 0.1; mjs_setName(g1->element, "tw1");
+    mjsGeom* g2 = mjs_addGeom(b, NULL); g2->type = mjGEOM_SPHERE; g2->size[0] = 0.1; g2->pos[0] = 0.12; mjs_setName(g2->element, "tw2");
+    mjsPair* pr = mjs_addPair(s, NULL); mjs_setString(pr->geomname1, "tw1"); mjs_setString(pr->geomname2, "tw2"); pr->condim = 3;
   }
   mjModel* m = mj_compile(s, NULL);
   if (!m) fprintf(stderr, "isl: compile failed seed=%d: %s\n", seed, mjs_getError(s));
@@ -205,6 +235,7 @@ int main(int argc, char** argv) {
       if (adhes && mjg_chance(&r, 0.6)) { m->geom_adhesion[g] = mjg_range(&r, 0.1, 3.0); m->flg_adhesion = 1; }
     }
     m->opt.tolerance = 1e-10; m->opt.iterations = 200;
+    m->opt.jacobian = (seed % 3 == 1) ? mjJAC_SPARSE : (seed % 3 == 2) ? mjJAC_DENSE : mjJAC_AUTO;
     mjData* d = mj_makeData(m);
     mjg_random_state(m, d, &r, 1.0);
     if (seed % 4 == 3) for (int i = 0; i < m->nv; i++) d->qfrc_applied[i] = mjg_range(&r, -40, 40);   // saturating loads
